@@ -48,22 +48,23 @@ def violated(out):
             if f"Invariant {w} is violated" in out or f"Action property {w} is violated" in out}
 
 
-def model_check(tier):
-    """The main design-level runs: every clause holds, every action is taken."""
-    total = None
-    for cfg in (["MCPairing"] if tier == "quick" else ["MCPairing_thorough", "MCPairing_thorough2"]):
-        mc = run_tlc("MCPairing", cfg, workers=4 if tier == "quick" else 6, coverage=True, timeout=1500, tag=f"mc-pairing-{cfg}")
-        cov = mc.get("action_coverage", {})
-        for a in NEED_ACTIONS:
-            if cov.get(a, 0) == 0:
-                raise ToolError(f"vacuous model run: action {a} of {cfg} never taken ({cov})")
-        if total is None:
-            total = mc
-        else:
-            total["distinct"] += mc["distinct"]
-            total["generated"] += mc["generated"]
-            total["depth"] = max(total["depth"], mc["depth"])
-            total["action_coverage"] = {a: total["action_coverage"].get(a, 0) + cov.get(a, 0) for a in set(cov) | set(total["action_coverage"])}
+def model_check(cfgs):
+    """Design-level runs in which every clause must hold.  cfgs = [(config, workers, with action coverage)];
+    returns the summed counters."""
+    total = {"distinct": 0, "generated": 0, "depth": 0, "action_coverage": {}}
+    for cfg, workers, coverage in cfgs:
+        mc = run_tlc("MCPairing", cfg, workers=workers, coverage=coverage, timeout=1500, tag=f"mc-pairing-{cfg}")
+        if mc["distinct"] == 0:
+            raise ToolError(f"model run {cfg} explored nothing:\n{mc['stdout'][-1500:]}")
+        if coverage:
+            cov = mc.get("action_coverage", {})
+            for a in NEED_ACTIONS:
+                if cov.get(a, 0) == 0:
+                    raise ToolError(f"vacuous model run: action {a} of {cfg} never taken ({cov})")
+            total["action_coverage"] = cov
+        total["distinct"] += mc["distinct"]
+        total["generated"] += mc["generated"]
+        total["depth"] = max(total["depth"], mc["depth"])
     return total
 
 
@@ -87,7 +88,7 @@ def broken_variants():
 
 def tlc_scripts(tier):
     """Behaviours of the specification (simulation with the real constants) as scripts."""
-    n_sim = 50 if tier == "quick" else 3000
+    n_sim = 100 if tier == "quick" else 4000
     g = run_tlc("MCPairing", "GenPairing", workers=1, simulate=n_sim, depth=20, seed_=seed(), timeout=900, tag="gen-pairing")
     exported, seen = [], set()
     for b in tlc_printed(g["stdout"], "SCRIPT"):
@@ -158,15 +159,19 @@ def pairing_stage(rep, tier, work, replay_script=None):
     shm = shm_root / f"verif-pairing-{os.getpid()}"
     shutil.rmtree(shm, ignore_errors=True)
     mc, variants, n_behaviours = None, {}, 0
-    pool = ThreadPoolExecutor(max_workers=4)
+    pool = ThreadPoolExecutor(max_workers=4)        # harness + trace validation, chunk by chunk
+    pool_mc = ThreadPoolExecutor(max_workers=2)     # the design-level runs, alongside
     try:
         if replay_script is not None:
             scripts = [replay_script]
             fut_mc = fut_bad = None
         else:
-            fut_mc = pool.submit(model_check, tier)
-            fut_bad = pool.submit(broken_variants)
-            n_rand = 1200 if tier == "quick" else 24000
+            # the small instance is run with action coverage (every action must be taken); the larger ones
+            # of the thorough tier without (coverage bookkeeping more than doubles their run time)
+            fut_mc = pool_mc.submit(model_check, [("MCPairing", 4, True)] if tier == "quick" else [("MCPairing_thorough", 6, False)])
+            fut_bad = pool_mc.submit(lambda: (broken_variants(),
+                                              model_check([] if tier == "quick" else [("MCPairing", 4, True), ("MCPairing_thorough2", 4, False)])))
+            n_rand = 2500 if tier == "quick" else 40000
             gp = work / "pairing.gen.ndjson"
             tpv(["pairing-gen", "--seed", seed(), "--runs", n_rand, "--out", gp], timeout=600)
             scripts = read_ndjson(gp)
@@ -177,11 +182,18 @@ def pairing_stage(rep, tier, work, replay_script=None):
         chunks = [scripts[i:i + size] for i in range(0, len(scripts), size)]
         futs = [pool.submit(run_chunk, i, c, work, shm) for i, c in enumerate(chunks)]
         results = sorted((f.result() for f in futs), key=lambda r: r[0])
+        t_conf = time.time() - t0
         if fut_mc is not None:
             mc = fut_mc.result()
-            variants = fut_bad.result()
+            variants, mc2 = fut_bad.result()
+            for k in ("distinct", "generated"):
+                mc[k] += mc2[k]
+            mc["depth"] = max(mc["depth"], mc2["depth"])
+            mc["action_coverage"] = mc["action_coverage"] or mc2["action_coverage"]
+        t_all = time.time() - t0
     finally:
         pool.shutdown(wait=True)
+        pool_mc.shutdown(wait=True)
         shutil.rmtree(shm, ignore_errors=True)
     stats, nops, nbad = {}, 0, 0
     by_cls, by_op = {}, {}
@@ -219,7 +231,7 @@ def pairing_stage(rep, tier, work, replay_script=None):
     for s in scripts:
         by_from[s.get("from", "?")] = by_from.get(s.get("from", "?"), 0) + 1
     log(f"C18 pairing stage: {len(scripts)} scripts, {nops} steps validated, {nbad} rejected runs, "
-        f"model {(mc or {}).get('distinct', 0)} states ({time.time() - t0:.0f}s)")
+        f"model {(mc or {}).get('distinct', 0)} states ({time.time() - t0:.0f}s; conformance done after {t_conf:.0f}s, model checking after {t_all:.0f}s)")
     return {
         "pairing_model_states": (mc or {}).get("distinct", 0),
         "pairing_model_transitions": (mc or {}).get("generated", 0),
